@@ -353,6 +353,14 @@ def implicit_sites(fn):
             out.append(("divzero", b, t))
         elif msg.startswith("RemainderByZero"):
             out.append(("remzero", b, t))
+        elif msg.startswith("Overflow") and not msg.startswith("OverflowNeg"):
+            # the check of a shift amount: assert(amount < bit width) - `1 << n` aborts for n >= 32
+            pl = t["o"].get("m") or t["o"].get("c") if isinstance(t.get("o"), dict) else None
+            if pl and not pl[1] and t.get("exp", True):
+                for st in blk["s"]:
+                    if st["k"] == "assign" and st["p"] == [pl[0], []] and st["r"].get("k") == "bin" and st["r"].get("op") == "Lt" \
+                            and isinstance(st["r"]["b"].get("k"), dict) and st["r"]["b"]["k"].get("int") in (8, 16, 32, 64, 128):
+                        out.append(("shift", b, t))
     return out
 
 
